@@ -134,7 +134,11 @@ func (r *Result) Write(t *testing.T) {
 			t.Logf("DISAGREE %+v", d)
 		}
 		for _, v := range r.Violations {
-			t.Logf("VIOLATION %+v", v)
+			d := v.Detail
+			if len(d) > 600 {
+				d = d[:600] + "…"
+			}
+			t.Logf("VIOLATION %s :: %s", v.Signature, d)
 		}
 		return
 	}
